@@ -355,7 +355,19 @@ func gEv(e Ev) string {
 	return lib.App("VEnd", t, e.R)
 }
 
-func term(in Input, o Obs) string {
+// maskOf: which known-finding outcomes the second evaluation of a case tolerates (see C14_Check.v)
+func maskOf(sig string) int {
+	m := 0
+	if strings.Contains(sig, "close-races-use") {
+		m |= 1
+	}
+	if strings.Contains(sig, "row-swallows-error") {
+		m |= 2
+	}
+	return m
+}
+
+func term(in Input, o Obs, mask int) string {
 	progs := lib.ListOf(in.Progs, func(p []Op) string { return lib.ListOf(p, gOp) })
 	// first field: which variant of prepare_stmt.go the model is run as (false = as it is;
 	// true once the guarded-delete patch is in /repo)
@@ -364,7 +376,7 @@ func term(in Input, o Obs) string {
 		plumbs = lib.List([]string{gPlumb(*in.Plumb, *o.Plumb)})
 	}
 	return lib.App("mk_case", lib.Bool(modelGuard), progs, lib.ListOf(o.Trace, gEv), lib.Bool(o.Hang),
-		lib.Nat(o.Leaked), lib.Nat(o.OpenStmts), lib.Nat(o.WrongRows), lib.Nat(o.Races), plumbs)
+		lib.Nat(o.Leaked), lib.Nat(o.OpenStmts), lib.Nat(o.WrongRows), lib.Nat(o.Races), plumbs, lib.Nat(mask))
 }
 
 // ---- signatures of the known findings (computed from programs + schedule, never from results)
@@ -698,7 +710,7 @@ func supervise(a lib.Args) {
 	o := Obs{Hang: true, Notes: []string{"the harness process died while running this case: " + err.Error(), tail}}
 	out := lib.NewOut(a.Out, "C14")
 	out.Extra["rule"] = "crash: the process running real gorm died; the case it was running is reported"
-	out.Add(lib.Case{Term: term(in, o), JSON: map[string]interface{}{"input": in, "observed": o},
+	out.Add(lib.Case{Term: term(in, o, 0), JSON: map[string]interface{}{"input": in, "observed": o},
 		Sig: "", Kind: "crash", Shape: "crash", Nontriv: true})
 	lib.Must(out.Flush())
 }
@@ -718,8 +730,15 @@ func main() {
 
 	add := func(kind string, in Input) Obs {
 		o := e.run(in)
-		out.Add(lib.Case{Term: term(in, o), JSON: map[string]interface{}{"input": in, "observed": o},
-			Sig: sig(in, o.Trace), Kind: kind, Shape: shape(in, o.Trace), Nontriv: nontrivial(in, o.Trace)})
+		sg := sig(in, o.Trace)
+		out.Add(lib.Case{Term: term(in, o, 0), JSON: map[string]interface{}{"input": in, "observed": o},
+			Sig: sg, Kind: kind, Shape: shape(in, o.Trace), Nontriv: nontrivial(in, o.Trace)})
+		if m := maskOf(sg); m != 0 {
+			// the same run again with exactly the known finding's outcome tolerated and NO
+			// signature: a failure of any other clause on this input is a violation
+			out.Add(lib.Case{Term: term(in, o, m), JSON: map[string]interface{}{"input": in, "observed": o, "tolerated": sg},
+				Sig: "", Kind: kind + "+other-clauses", Shape: shape(in, o.Trace) + "#mask", Nontriv: nontrivial(in, o.Trace)})
+		}
 		out.Count("races", fmt.Sprint(o.Races))
 		if in.Plumb != nil {
 			out.Count("plumbing_base", in.Plumb.Base)
@@ -798,6 +817,13 @@ func main() {
 		q := func(k string, tx bool) Op { return Op{K: k, Q: 0, Tx: tx} }
 		enumBase(add, [][]Op{{q("query", false)}, {q("exec", false)}}, -1, 120, false)
 		enumBase(add, [][]Op{{q("query", false)}, {{K: "reset"}}}, -1, 120, false)
+		// Reset / Close while a Prepare is parked: every order, Prepare succeeding and (fault at
+		// each decision in turn) failing; the open-statement count after quiescence is the oracle
+		enumBase(add, [][]Op{{q("query", false)}, {{K: "close"}}}, -1, 60, false)
+		for f := 1; f <= 4; f++ {
+			enumBase(add, [][]Op{{q("query", false)}, {{K: "reset"}}}, f, 40, false)
+			enumBase(add, [][]Op{{q("exec", false)}, {{K: "close"}}}, f, 40, false)
+		}
 		// the same with a reader holding Mux.RLock whenever a Prepare call completes
 		enumBase(add, [][]Op{{q("query", false)}, {q("exec", false)}}, -1, 120, true)
 		enumBase(add, [][]Op{{q("query", false)}, {q("query", true)}, {{K: "reset"}}}, -1, 60, true)
